@@ -452,6 +452,9 @@ func (vc *FuncVC) run() {
 			vc.assume(True, Not(vc.load(st, vc.val(g), SBool)))
 		}
 	}
+	vc.pendingClosed = nil
+	vc.closedAxiom(st, "H:Ref")
+	vc.closedAxiom(st, "H:Slice")
 	order := rpo(fn)
 	for _, b := range order {
 		vc.block(b, defs)
@@ -465,12 +468,24 @@ func (vc *FuncVC) run() {
 			}
 		}
 	}
-	if len(rets) > 0 {
-		o := vc.oblige("cover", "", "some return site is reachable under the assumed contracts (vacuity guard)", fn.Pos(), Or(rets...), False)
+	// vacuity guards: every return site must be reachable under the assumed contracts and invariants
+	// (a contradictory assumption would otherwise discharge everything behind it)
+	for _, b := range order {
+		if len(b.Instrs) == 0 {
+			continue
+		}
+		if _, ok := b.Instrs[len(b.Instrs)-1].(*ssa.Return); !ok {
+			continue
+		}
+		if _, ok := vc.reach[b]; !ok {
+			continue
+		}
+		o := vc.oblige("cover", "", fmt.Sprintf("return site in block %d is reachable under the assumed contracts and invariants (vacuity guard)", b.Index), b.Instrs[len(b.Instrs)-1].Pos(), vc.reach[b], False)
 		if o != nil {
 			o.Cover = true
 		}
 	}
+	_ = rets
 }
 
 func (vc *FuncVC) edgeCond(p, b *ssa.BasicBlock) Term {
@@ -517,6 +532,7 @@ func (vc *FuncVC) mergeStates(hint string, conds []Term, sts []*State) *State {
 			vc.emit("(assert (=> %s (= %s %s)))", conds[i].S, nv.S, vc.cur(s, key).S)
 		}
 	}
+	vc.flushClosed()
 	return out
 }
 
@@ -693,8 +709,18 @@ func (vc *FuncVC) loopHead(l *loopInfo, b *ssa.BasicBlock, pre *State, preds []*
 					fr.mods = append(fr.mods, modLoc{kind: "tree", t: vc.val(a)})
 				}
 			}
-			if mc, ok := ins.(*ssa.MakeClosure); ok {
-				_ = mc
+			// maps created by this function before the loop and updated in it
+			var mv ssa.Value
+			switch x := ins.(type) {
+			case *ssa.MapUpdate:
+				mv = x.Map
+			case ssa.CallInstruction:
+				if bi, ok := x.Common().Value.(*ssa.Builtin); ok && bi.Name() == "delete" {
+					mv = x.Common().Args[0]
+				}
+			}
+			if mm, ok := mv.(*ssa.MakeMap); ok && !l.body[mm.Block()] {
+				fr.mods = append(fr.mods, modLoc{kind: "map", t: vc.val(mm)})
 			}
 		}
 	}
@@ -711,7 +737,7 @@ func (vc *FuncVC) loopHead(l *loopInfo, b *ssa.BasicBlock, pre *State, preds []*
 		switch {
 		case key == "alloc":
 			r := vc.boundVar("r", SRef)
-			vc.emit("(assert %s)", Forall([]Term{r}, Implies(Select(old, r, SBool), Select(nv, r, SBool)), Select(old, r, SBool)).S)
+			vc.emit("(assert %s)", ForallAlt([]Term{r}, Implies(Select(old, r, SBool), Select(nv, r, SBool)), Select(old, r, SBool), Select(nv, r, SBool)).S)
 		case strings.HasPrefix(key, "H:"):
 			es := Sort(key[2:])
 			r := vc.boundVar("r", SRef)
@@ -728,6 +754,7 @@ func (vc *FuncVC) loopHead(l *loopInfo, b *ssa.BasicBlock, pre *State, preds []*
 		}
 	}
 	l.headSt = head
+	vc.flushClosed()
 	// phis
 	for _, ins := range b.Instrs {
 		phi, ok := ins.(*ssa.Phi)
@@ -769,6 +796,9 @@ func (vc *FuncVC) backEdge(l *loopInfo, from *ssa.BasicBlock, st *State, defs ma
 		return
 	}
 	guard := vc.edgeCond(from, l.head)
+	if o := vc.oblige("cover", "", fmt.Sprintf("back edge of loop %d from block %d is reachable under the invariants (vacuity guard)", l.ordinal, from.Index), l.head.Instrs[0].Pos(), guard, False); o != nil {
+		o.Cover = true
+	}
 	phiOv := map[ssa.Value]Term{}
 	for _, ins := range l.head.Instrs {
 		phi, ok := ins.(*ssa.Phi)
@@ -996,11 +1026,15 @@ func (vc *FuncVC) instr(b *ssa.BasicBlock, idx int, ins ssa.Instruction, st *Sta
 			vc.safetyOb("nilmap", "assignment to entry in nil map", x.Pos(), reach, Not(Eq(m, Null)))
 		}
 		if vc.withFrame {
-			if _, isLocal := x.Map.(*ssa.MakeMap); !isLocal {
-				var goals []Term
-				for _, fr := range vc.activeFrames(b) {
-					goals = append(goals, Or(Not(Select(fr.allocPre, m, SBool)), vc.modPred(fr.mods, m)))
+			_, isLocal := x.Map.(*ssa.MakeMap)
+			var goals []Term
+			for _, fr := range vc.activeFrames(b) {
+				if isLocal && fr.name == "func" {
+					continue // created by this function: not part of the caller-visible frame
 				}
+				goals = append(goals, Or(Not(Select(fr.allocPre, m, SBool)), vc.modPred(fr.mods, m)))
+			}
+			if len(goals) > 0 {
 				vc.oblige("frame", "", "map update of "+x.Map.Name()+" is permitted by the modifies clauses (the map is fresh or listed)", x.Pos(), reach, And(goals...))
 			}
 		}
